@@ -254,10 +254,17 @@ def judge_model_case(rep, c, r):
     alg = {"err": c["alg"]["err"], "levels": [{"x": l["x"], "chosen": l["chosen"], "sections": sorted(l["sections"])} for l in c["alg"]["levels"]]}
     if seen == ref and not r.get("escaped"):
         return
-    if c["dcfdev"]:
-        rep.violation("dcf:subcommand-settings", DCFDEV, case)
-    elif r.get("escaped"):
+    if r.get("escaped"):   # an exception other than ArgumentError is never part of a recorded finding
         rep.violation(f"escaped:{r['escaped']}", f"{r['escaped']} escaped from a parse with sub-commands", case)
+    elif c["dcfdev"]:
+        # the excused input class of finding dcf:subcommand-settings; what the real code did there is classified for
+        # the evidence file (the class is not transcribed: see DESIGN.md I.5, C17-r3m2)
+        ac = c.get("algcfg")
+        kind = ("as-a-later-config" if ac and seen == {"err": ac["err"], "levels": [{"x": l["x"], "chosen": l["chosen"], "sections": sorted(l["sections"])} for l in ac["levels"]]}
+                else "nested-key-error" if seen["err"] and "does not accept nested key" in (r.get("msg") or "") else "other-error" if seen["err"] else "other-result")
+        d = rep.extra.setdefault("dcf_class_outcomes", {})
+        d[kind] = d.get(kind, 0) + 1
+        rep.violation("dcf:subcommand-settings", DCFDEV, case)
     elif c["dev"] and seen == alg:
         rep.violation("cfgkey-names-other:settings-dropped", DEV, case)
     else:
@@ -293,7 +300,7 @@ def main(argv):
             rep.extra[f"behaviours_model_checked_{t}"] = mc.printed_total - len(td)
         else:
             td = [p for p in mc.printed if isinstance(p, dict) and "treedef" in p]
-            got_texts = [json.dumps({"input": c["input"], "ref": c["ref"], "alg": c["alg"], "dev": c["dev"], "dcfdev": c["dcfdev"]}, sort_keys=True, separators=(",", ":"))
+            got_texts = [json.dumps({"input": c["input"], "ref": c["ref"], "alg": c["alg"], "dev": c["dev"], "dcfdev": c["dcfdev"], "algcfg": c.get("algcfg")}, sort_keys=True, separators=(",", ":"))
                          for c in mc.printed if isinstance(c, dict) and "input" in c]
         if not td or not got_texts:
             machinery_failure(PID, f"{cfgname}: nothing emitted")
